@@ -89,7 +89,8 @@ RULE = ('Each case is a structured changelog model (1..5 blocks; package over [a
         'models repeat a version string, with a sibling object of the same text and 1..2 objects of other texts '
         '(85% sharing the version string) built before, and fresh objects of all those texts built after every '
         'mutation.  A second-use case is non-trivial when at least one second use was judged / one mutation applied.  '
-        'SIZE class (kind "big", own random stream + a fixed matrix of ~600 cases, same for every seed and tier): a small '
+        'SIZE class (kind "big": own random stream of 400 / 30000 cases + a fixed matrix of 543 cases, same for every seed, '
+        'to which the thorough tier adds 25 cases of 2.6e5 / 1e6 characters, 65536 / 100000 lines, 5000 blocks): a small '
         'base model (1..3 blocks) in which 1..2 items are grown by a recipe - version digit runs of 18, 19, 20, 40, 400, '
         '4299, 4300, 4301, 5000, 10000 (+-1, and log-uniform sizes in between) digits in the upstream part, the revision, '
         'after an epoch, with leading zeros, in both parts, in first and non-first blocks, plus versions of 10^4 short '
@@ -97,7 +98,9 @@ RULE = ('Each case is a structured changelog model (1..5 blocks; package over [a
         'key=value lists (1..5000 pairs, long keys, long values, all-digit values), maintainer names, e-mail addresses of '
         '64..65537 (thorough 10^5) characters incl. all-digit and non-ASCII ones; change blocks of 100..10000 (thorough '
         '20000) numbered lines with and without inner blank lines, single change lines of up to 10^5 characters; 50..1000 '
-        'blocks.  Every big case is non-trivial.  KEY=VALUE class (ordinary "cl" cases tagged wl=kv-matrix / kv-random): '
+        'blocks.  Every big case is non-trivial; all nine input forms are driven, the per-accessor sweep runs in two of them '
+        '(in one form for a third of the ordinary models, for every key=value model and every judged second use).  '
+        'KEY=VALUE class (ordinary "cl" cases tagged wl=kv-matrix / kv-random; 462 fixed + 1600 / 50000 seeded models): '
         'a fixed matrix (every key of a 60-key vocabulary - team-upload, binary-only, source-only, qa-upload, X- / XS- / XB- / '
         'XC- / XBS- / XSBC- extension keys, case variants, keys that look like urgency, digits, hyphens - x 4 heading layouts; '
         'every value of a 40-value vocabulary under 3 keys; 1..8 pairs in several orders; with and without urgency comment; '
@@ -155,7 +158,9 @@ ASSUMPTIONS = [
     'vp.models.dpkgver.split - what C14 establishes for debian_support.Version on the unchanged tree; Changelog-level '
     'accessors (cl.version, get_version(), full_version, epoch, upstream_version, debian_revision, debian_version, package, '
     'get_package(), distributions, urgency, author, date) are documented as shortcuts to the first block in file order and '
-    'are compared with that block of the model; cl[i] (integer) with the i-th block; look-ups by version string / Version '
+    'are compared with that block of the model; cl[i] (integer) must be the i-th block of the iteration (the same object, or '
+    'one showing that block\'s version and package); warnings given by an accessor are not judged (the statement\'s "without '
+    'any warning" is about parsing); look-ups by version string / Version '
     '(equality of versions, not spelling) and hash() of a Version are NOT part of this class; bugs_closed / lp_bugs_closed '
     '(int conversion of bug numbers) are not read',
     'key=value class: exactly the grammar of the statement - urgency is the FIRST pair, further pairs follow after ", "; '
@@ -275,6 +280,83 @@ FLOORS['thorough']['counters'].update(_T2)
 FLOORS['quick']['monitors'].update({'M.reuse': 2700, 'M.reuse.other': 950, 'M.handout': 2500, 'M.handout.later': 14000})
 FLOORS['thorough']['monitors'].update({'M.reuse': 87000, 'M.reuse.other': 35000, 'M.handout': 80000,
                                        'M.handout.later': 450000})
+
+# floors of the size class (big:*, wl:*) and of the key=value class (kv:*): about half of the minimum over quick seeds
+# 0-3 / of thorough seed 0 on the unchanged tree - a run that never exercises these classes is inconclusive, not held
+_Q3 = {'big:blocks:1000-4300': 1, 'big:case': 471, 'big:size:body:lines:100-999': 13,
+       'big:size:body:lines:1000-4300': 13, 'big:size:body:lines:<100': 19, 'big:size:body:lines:>20000': 1,
+       'big:size:body:longest-line:<100': 37, 'big:size:c:100-999': 10, 'big:size:c:1000-4300': 11,
+       'big:size:c:4301-20000': 9, 'big:size:d:chars:100-999': 12, 'big:size:d:chars:1000-4300': 9,
+       'big:size:d:chars:4301-20000': 9, 'big:size:d:names:100-999': 9, 'big:size:d:names:4301-20000': 1,
+       'big:size:d:names:<100': 23, 'big:size:d:names:>20000': 2, 'big:size:e:1000-4300': 10,
+       'big:size:kv:chars:100-999': 11, 'big:size:kv:chars:1000-4300': 12, 'big:size:kv:chars:4301-20000': 8,
+       'big:size:kv:chars:<100': 11, 'big:size:kv:pairs:4301-20000': 1, 'big:size:kv:pairs:<100': 40,
+       'big:size:n:100-999': 11, 'big:size:n:1000-4300': 11, 'big:size:n:4301-20000': 8, 'big:size:p:1000-4300': 9,
+       'big:size:v:100-999': 24, 'big:size:v:1000-4300': 14, 'big:size:v:4301-20000': 73, 'big:size:v:<100': 57,
+       'big:version-digit-run-in:revision': 40, 'big:version-digit-run-in:upstream': 131,
+       'big:version-digit-run-with-epoch': 35, 'big:version-digit-run:19-40': 33,
+       'big:version-digit-run:19-40:first-block': 25, 'big:version-digit-run:401-4300': 35,
+       'big:version-digit-run:401-4300:first-block': 27, 'big:version-digit-run:41-400': 19,
+       'big:version-digit-run:41-400:first-block': 16, 'big:version-digit-run:<=18': 34,
+       'big:version-digit-run:<=18:first-block': 26, 'big:version-digit-run:<=18:later-block': 8,
+       'big:version-digit-run:>4300': 49, 'big:version-digit-run:>4300:first-block': 38,
+       'big:version-digit-run:>4300:later-block': 9, 'big:version-long-without-long-run': 34,
+       'kv:after-urgency-comment': 635, 'kv:case': 1031, 'kv:case:kv-matrix': 231, 'kv:case:kv-random': 800,
+       'kv:heading-with-pairs': 1374, 'kv:key-style:X-extension': 370, 'kv:key-style:X[BCS]+-extension': 929,
+       'kv:key-style:binary-only': 161, 'kv:key-style:hyphenated-word': 705, 'kv:key-style:looks-like-urgency': 119,
+       'kv:key-style:plain-word': 967, 'kv:key-style:qa-upload': 21, 'kv:key-style:source-only': 31,
+       'kv:key-style:team-upload': 131, 'kv:key-with-upper-case': 1905, 'kv:pairs-in-heading:1': 483,
+       'kv:pairs-in-heading:2': 265, 'kv:pairs-in-heading:3': 259, 'kv:pairs-in-heading:4': 111,
+       'kv:pairs-in-heading:5': 107, 'kv:pairs-in-heading:6+': 105, 'kv:value-contains-blank': 681,
+       'kv:value-contains-equals': 524, 'kv:value-yes-no': 1011, 'wl:big-matrix': 271, 'wl:big-random': 200}
+_T3 = {'big:blocks:100-999': 427, 'big:blocks:<100': 191, 'big:case': 15265, 'big:digit-run>4300-in:c': 61,
+       'big:digit-run>4300-in:e': 180, 'big:digit-run>4300-in:n': 70, 'big:digit-run>4300-in:p': 94,
+       'big:size:body:lines:100-999': 390, 'big:size:body:lines:1000-4300': 422,
+       'big:size:body:lines:4301-20000': 262, 'big:size:body:lines:<100': 723, 'big:size:body:lines:>20000': 101,
+       'big:size:body:longest-line:100-999': 142, 'big:size:body:longest-line:1000-4300': 168,
+       'big:size:body:longest-line:4301-20000': 117, 'big:size:body:longest-line:<100': 1348,
+       'big:size:body:longest-line:>20000': 123, 'big:size:c:100-999': 412, 'big:size:c:1000-4300': 394,
+       'big:size:c:4301-20000': 422, 'big:size:c:<100': 234, 'big:size:c:>20000': 383,
+       'big:size:d:chars:100-999': 417, 'big:size:d:chars:1000-4300': 414, 'big:size:d:chars:4301-20000': 417,
+       'big:size:d:chars:<100': 284, 'big:size:d:chars:>20000': 348, 'big:size:d:names:100-999': 393,
+       'big:size:d:names:1000-4300': 262, 'big:size:d:names:4301-20000': 126, 'big:size:d:names:<100': 1098,
+       'big:size:e:100-999': 377, 'big:size:e:1000-4300': 422, 'big:size:e:4301-20000': 444, 'big:size:e:<100': 235,
+       'big:size:e:>20000': 375, 'big:size:kv:chars:100-999': 409, 'big:size:kv:chars:1000-4300': 307,
+       'big:size:kv:chars:4301-20000': 416, 'big:size:kv:chars:<100': 387, 'big:size:kv:chars:>20000': 358,
+       'big:size:kv:pairs:100-999': 260, 'big:size:kv:pairs:1000-4300': 153, 'big:size:kv:pairs:4301-20000': 93,
+       'big:size:kv:pairs:<100': 1372, 'big:size:n:100-999': 417, 'big:size:n:1000-4300': 403,
+       'big:size:n:4301-20000': 413, 'big:size:n:<100': 284, 'big:size:n:>20000': 363, 'big:size:p:100-999': 424,
+       'big:size:p:1000-4300': 476, 'big:size:p:4301-20000': 381, 'big:size:p:<100': 317, 'big:size:p:>20000': 313,
+       'big:size:v:100-999': 1121, 'big:size:v:1000-4300': 757, 'big:size:v:4301-20000': 2129,
+       'big:size:v:<100': 1312, 'big:size:v:>20000': 69, 'big:version-digit-run-in:revision': 1156,
+       'big:version-digit-run-in:upstream': 4397, 'big:version-digit-run-with-epoch': 1165,
+       'big:version-digit-run:19-40': 778, 'big:version-digit-run:19-40:first-block': 655,
+       'big:version-digit-run:19-40:later-block': 123, 'big:version-digit-run:401-4300': 1431,
+       'big:version-digit-run:401-4300:first-block': 1213, 'big:version-digit-run:401-4300:later-block': 217,
+       'big:version-digit-run:41-400': 968, 'big:version-digit-run:41-400:first-block': 819,
+       'big:version-digit-run:41-400:later-block': 149, 'big:version-digit-run:<=18': 737,
+       'big:version-digit-run:<=18:first-block': 633, 'big:version-digit-run:<=18:later-block': 104,
+       'big:version-digit-run:>4300': 1474, 'big:version-digit-run:>4300:first-block': 1247,
+       'big:version-digit-run:>4300:later-block': 227, 'big:version-long-without-long-run': 737,
+       'kv:after-urgency-comment': 18451, 'kv:case': 25228, 'kv:case:kv-matrix': 231, 'kv:case:kv-random': 24997,
+       'kv:heading-with-pairs': 36103, 'kv:key-style:X-extension': 10275, 'kv:key-style:X[BCS]+-extension': 29286,
+       'kv:key-style:binary-only': 2053, 'kv:key-style:hyphenated-word': 20869,
+       'kv:key-style:looks-like-urgency': 3466, 'kv:key-style:plain-word': 28316, 'kv:key-style:qa-upload': 804,
+       'kv:key-style:source-only': 813, 'kv:key-style:team-upload': 2364, 'kv:key-with-upper-case': 56162,
+       'kv:pairs-in-heading:1': 11570, 'kv:pairs-in-heading:2': 7441, 'kv:pairs-in-heading:3': 6839,
+       'kv:pairs-in-heading:4': 3436, 'kv:pairs-in-heading:5': 3371, 'kv:pairs-in-heading:6+': 3445,
+       'kv:value-contains-blank': 20677, 'kv:value-contains-equals': 16279, 'kv:value-yes-no': 26826,
+       'wl:big-matrix': 271, 'wl:big-random': 14994}
+# small counts the fixed matrix alone guarantees (quick)
+_Q3.update({'big:digit-run>4300-in:c': 3, 'big:digit-run>4300-in:e': 1, 'big:digit-run>4300-in:n': 1,
+            'big:digit-run>4300-in:p': 1, 'big:size:p:>20000': 2, 'big:size:c:>20000': 4, 'big:size:n:>20000': 3,
+            'big:size:e:>20000': 3, 'big:size:d:chars:>20000': 5, 'big:size:kv:chars:>20000': 6,
+            'big:size:body:longest-line:>20000': 3, 'big:size:body:lines:4301-20000': 5, 'big:blocks:100-999': 5,
+            'big:size:kv:pairs:100-999': 7, 'big:size:kv:pairs:1000-4300': 2, 'big:size:d:names:1000-4300': 6})
+FLOORS['quick']['counters'].update(_Q3)
+FLOORS['thorough']['counters'].update(_T3)
+FLOORS['quick']['monitors'].update({'M.big': 4200, 'M.kv': 9200, 'M.accessors': 14000})
+FLOORS['thorough']['monitors'].update({'M.big': 137000, 'M.kv': 227000, 'M.accessors': 450000})
 
 # ---------------------------------------------------------------------------
 # grammar (render + independent validity check of a model)
@@ -879,7 +961,11 @@ def deep_accessors(cl, case, form, stats):
             expect('block.package', b['p'], pkg)
         ok, gi = read('cl[i]', lambda: cl[i])
         if ok and gi is not g:
-            out.append(('attribute-differs/cl[i]', '[%s] cl[%d] is not the block number %d of the iteration' % (form, i, i)))
+            # another object is fine as long as it is that block (a library may hand out views)
+            ok, have = read('cl[i].version/package', lambda: (str(gi.version), gi.package))
+            if ok and have != (b['v'], b['p']):
+                out.append(('attribute-differs/cl[i]', '[%s] cl[%d] is the block %s, the block number %d written is %s'
+                            % (form, i, _r(have), i, _r((b['v'], b['p'])))))
     first = blocks[0]
     for name, fn in (('cl.version', lambda: cl.version), ('cl.get_version()', lambda: cl.get_version())):
         ok, v = read(name, fn)
@@ -958,7 +1044,10 @@ def judge_object(cl, case, form, text, lines, classes, stats, deep=False):
         out.append(('attribute-access-raises/' + type(e).__name__, '[%s] reading block attributes raised %s: %s' % (form, type(e).__name__, _r(str(e)))))
     if deep:
         have = set(k for k, _m in out)
-        out.extend((k, m) for k, m in deep_accessors(cl, case, form, stats) if k not in have)
+        with warnings.catch_warnings():
+            warnings.simplefilter('ignore')      # "without any warning" is about parsing; an accessor may e.g. deprecate itself
+            more = deep_accessors(cl, case, form, stats)
+        out.extend((k, m) for k, m in more if k not in have)
     return out
 
 
